@@ -28,6 +28,28 @@ fn logln(log: &Log, s: &str) {
     let _ = f.flush();
 }
 
+static RELAY_RD: std::sync::atomic::AtomicI32 = std::sync::atomic::AtomicI32::new(-1);
+static RELAY_BUSY: std::sync::atomic::AtomicBool = std::sync::atomic::AtomicBool::new(false);
+
+/// with `stdout_relay`: wait until everything written so far has been copied to the terminal
+fn relay_drain() {
+    let rd = RELAY_RD.load(std::sync::atomic::Ordering::SeqCst);
+    if rd < 0 {
+        return;
+    }
+    let mut calm = 0;
+    while calm < 3 {
+        let mut n: libc::c_int = 0;
+        unsafe { libc::ioctl(rd, libc::FIONREAD, &mut n) };
+        if n == 0 && !RELAY_BUSY.load(std::sync::atomic::Ordering::SeqCst) {
+            calm += 1;
+        } else {
+            calm = 0;
+        }
+        std::thread::sleep(std::time::Duration::from_millis(1));
+    }
+}
+
 struct Logger(Log, u64);      // the log, and a pause (ms) made while each key is being handled (`key_delay_ms`)
 impl ConditionalEventHandler for Logger {
     fn handle(&self, evt: &Event, n: RepeatCount, positive: bool, ctx: &EventContext) -> Option<Cmd> {
@@ -213,6 +235,7 @@ pub fn main(spec_path: &str) {
     let mut stdout_full = false;
     let mut stdin_ro = false;
     let mut preferterm = false;
+    let mut stdout_relay = false;
     let mut stdout_close_after: Option<usize> = None;
     let mut tab_stop: u8 = 8;
     let mut indent_size: u8 = 2;
@@ -273,6 +296,7 @@ pub fn main(spec_path: &str) {
             "stdout_full" => stdout_full = t[1] == "1",
             "stdin_ro" => stdin_ro = t[1] == "1",
             "preferterm" => preferterm = t[1] == "1",
+            "stdout_relay" => stdout_relay = t[1] == "1",
             "stdout_close_after" => stdout_close_after = Some(t[1].parse().unwrap()),
             "tab_stop" => tab_stop = t[1].parse().unwrap(),
             "indent_size" => indent_size = t[1].parse().unwrap(),
@@ -327,6 +351,38 @@ pub fn main(spec_path: &str) {
                 left -= k as usize;
             }
             unsafe { libc::close(rd) };
+        });
+    }
+    if stdout_relay {
+        // `app | cat`: standard output is a pipe whose reader copies everything to the terminal. What the terminal receives is
+        // the same, but the editor's output is NOT a terminal
+        let mut fds = [0i32; 2];
+        let tty_out = unsafe { libc::dup(1) };
+        unsafe {
+            libc::pipe(fds.as_mut_ptr());
+            libc::dup2(fds[1], 1);
+            libc::close(fds[1]);
+        }
+        let rd = fds[0];
+        RELAY_RD.store(rd, std::sync::atomic::Ordering::SeqCst);
+        std::thread::spawn(move || {
+            let mut buf = [0u8; 4096];
+            loop {
+                let k = unsafe { libc::read(rd, buf.as_mut_ptr() as *mut libc::c_void, buf.len()) };
+                if k <= 0 {
+                    break;
+                }
+                RELAY_BUSY.store(true, std::sync::atomic::Ordering::SeqCst);
+                let mut off = 0usize;
+                while off < k as usize {
+                    let w = unsafe { libc::write(tty_out, buf[off..].as_ptr() as *const libc::c_void, k as usize - off) };
+                    if w <= 0 {
+                        break;
+                    }
+                    off += w as usize;
+                }
+                RELAY_BUSY.store(false, std::sync::atomic::Ordering::SeqCst);
+            }
         });
     }
     if stdout_full {
@@ -479,6 +535,7 @@ fn drive<I: History>(mut rl: Editor<ScriptHelper, I>, st: Setup, history: &[Stri
         }
         if pause {
             // let the driver look at (and change) the terminal settings between two reads
+            relay_drain();
             unsafe {
                 libc::raise(libc::SIGSTOP);
             }
@@ -487,6 +544,7 @@ fn drive<I: History>(mut rl: Editor<ScriptHelper, I>, st: Setup, history: &[Stri
             // keep reading: the driver decides when to stop
         }
     }
+    relay_drain();
     logln(&log, "S done");
     if linger {
         // stay alive after the last read (blocked reading the terminal) so that printers can be used when no read is
